@@ -5,8 +5,8 @@ import (
 	"time"
 )
 
-// SECS-I (SEMI E4) side of the scripted peer: an independent reading of the block protocol,
-// single-block messages only. The connection under test is the equipment (master); the peer is
+// SECS-I (SEMI E4) side of the scripted peer: an independent reading of the block protocol
+// (it sends single- and multi-block messages; it expects single-block messages). The connection under test is the equipment (master); the peer is
 // the host (slave: on ENQ contention it yields). Frames are exchanged with the rest of the
 // harness in the same internal layout as HSMS frames ([len4][sid2][b2][b3][0][0][sys4][body]);
 // sid is the device id.
@@ -21,22 +21,40 @@ const (
 const s1Wait = time.Second // generous line timeouts of the peer (the library's T1/T2 are much shorter)
 
 type s1Req struct {
-	wire []byte
-	res  chan error
+	wires [][]byte // the block transmissions of one message, in order
+	res   chan error
 }
 
-func e4Wire(f []byte) []byte {
-	// f: internal frame; E4 header: R=0 (host to equipment), E-bit set, block number 1
+// e4Blocks cuts one internal frame into E4 block transmissions [len][header][body][sum]: at most
+// 244 body bytes per block, numbered from 1, E-bit on the last; R=0 (host to equipment).
+func e4Blocks(f []byte) [][]byte {
 	body := f[14:]
-	w := make([]byte, 0, 13+len(body))
-	w = append(w, byte(10+len(body)))
-	w = append(w, f[4]&0x7F, f[5], f[6], f[7], 0x80, 1, f[10], f[11], f[12], f[13])
-	w = append(w, body...)
-	sum := 0
-	for _, v := range w[1:] {
-		sum += int(v)
+	n := (len(body) + 243) / 244
+	if n == 0 {
+		n = 1
 	}
-	return append(w, byte(sum>>8), byte(sum))
+	out := make([][]byte, 0, n)
+	for i := 0; i < n; i++ {
+		lo, hi := i*244, (i+1)*244
+		if hi > len(body) {
+			hi = len(body)
+		}
+		num := i + 1
+		eb := byte(0)
+		if i == n-1 {
+			eb = 0x80
+		}
+		w := make([]byte, 0, 13+hi-lo)
+		w = append(w, byte(10+hi-lo))
+		w = append(w, f[4]&0x7F, f[5], f[6], f[7], eb|byte(num>>8), byte(num), f[10], f[11], f[12], f[13])
+		w = append(w, body[lo:hi]...)
+		sum := 0
+		for _, v := range w[1:] {
+			sum += int(v)
+		}
+		out = append(out, append(w, byte(sum>>8), byte(sum)))
+	}
+	return out
 }
 
 func (p *Peer) s1ReadByte(d time.Duration) (byte, bool) {
@@ -81,6 +99,15 @@ func (p *Peer) s1Take() {
 	}
 	if sum&0xFFFF != int(rest[n])<<8|int(rest[n+1]) {
 		p.s1Raw(chNAK)
+		return
+	}
+	if mode := p.NakFirst.Load(); mode != 0 && string(rest[:n]) != p.s1nak {
+		// behave as a receiver that rejects (1) or misses (2) the FIRST transmission of a block: the
+		// sender retransmits it (E4 RTY); it is still ONE message for the data-sent counter
+		p.s1nak = string(rest[:n])
+		if mode == 1 {
+			p.s1Raw(chNAK)
+		}
 		return
 	}
 	if !p.s1Raw(chACK) {
@@ -159,6 +186,28 @@ func (p *Peer) s1Send(w []byte) error {
 	return fail(errors.New("gave up"))
 }
 
+// s1SendMsg transmits the blocks of one message. After each acknowledged block it may behave as a
+// sender that LOST the acknowledgement: it transmits the identical block again (full ENQ/EOT
+// handshake) Dup more times — by E4 9.4.2 the receiver acknowledges and discards those. The
+// message is ONE message whatever the number of transmissions.
+func (p *Peer) s1SendMsg(wires [][]byte) error {
+	for i, w := range wires {
+		if err := p.s1Send(w); err != nil {
+			if errors.Is(err, errS1Unacked) && i < len(wires)-1 {
+				return errors.New("message abandoned before its last block")
+			}
+			return err
+		}
+		for k := int32(0); k < p.Dup.Load(); k++ {
+			if p.s1Send(w) != nil {
+				break
+			}
+			p.DupSent.Add(1)
+		}
+	}
+	return nil
+}
+
 func (p *Peer) s1Loop() {
 	defer func() {
 		p.markDown()
@@ -191,7 +240,7 @@ func (p *Peer) s1Loop() {
 				p.s1Take()
 			}
 		case req := <-p.s1out:
-			req.res <- p.s1Send(req.wire)
+			req.res <- p.s1SendMsg(req.wires)
 		case <-p.closed:
 			return
 		}
@@ -200,7 +249,7 @@ func (p *Peer) s1Loop() {
 
 // s1Write hands one internal frame to the line loop and waits for its ACK.
 func (p *Peer) s1Write(f []byte) error {
-	req := s1Req{wire: e4Wire(f), res: make(chan error, 1)}
+	req := s1Req{wires: e4Blocks(f), res: make(chan error, 1)}
 	select {
 	case p.s1out <- req:
 	case <-p.closed:
